@@ -97,6 +97,15 @@ class Prop(BaseProp):
                 if len(body) + d >= 0:
                     cases.append({"kind": "Parse", "inp": (varint(len(body) + d) + body).hex(), "pp": False})
                     cases.append({"kind": "Parse", "inp": (varint(len(body) + d) + body + b"\x00\x00\x00").hex(), "pp": False})
+        # the stream ends AT a PUSHDATA opcode or INSIDE its length field (any length bytes present are zero), while the declared
+        # script length counts the missing bytes: nothing may be accepted
+        for pre in ([], [rb(3)], [118, 169, rb(20), 136, 172]):
+            try:
+                body = Script(to_py(pre)).raw_serialize()
+            except Exception:
+                continue
+            for present, missing in ((b"\x4c", 1), (b"\x4d", 2), (b"\x4d\x00", 1), (b"\x4c", 2), (b"\x4d", 1), (b"\x4d\x00", 2)):
+                cases.append({"kind": "Parse", "inp": (varint(len(body) + len(present) + missing) + body + present).hex(), "pp": False})
         for h in ["014c00", "014c01aa", "014d0000", "024d0000", "014d000000", "024d0100aa", "004c00", "0051", "024c0051", "034d000051"]:
             cases.append({"kind": "Parse", "inp": h, "pp": False})
         for h in ["", "00", "01", "0101", "0504aa", "0201", "024c00", "024c01", "034c01", "034c01aa", "034d0100", "044d0100aa", "014c", "014d",
